@@ -125,7 +125,7 @@ def make_scenario(op, variant, rng, events="all"):
         j.update(PAYLOADS[1])
         jobs.append(j)
     return {"op": op, "variant": variant, "sp": sp, "newsp": newsp if op == "rekey" else None, "jobs": jobs,
-            "events": events, "seed": rng.randrange(1 << 30)}
+            "events": events, "seed": rng.randrange(1 << 30), "cache": rng.random() < 0.5}
 
 
 def generate(tier, rng):
@@ -176,8 +176,7 @@ def build_template(scn, root):
         jid = ref_id(j["sp"])
         jd = os.path.join(proj.workspace, jid)
         if j["damage"] == "emptydir":
-            os.makedirs(jd)
-            continue
+            continue  # created below, after the cache has been written
         job = proj.open_job(j["sp"])
         job.init()
         if j.get("doc") is not None:
@@ -191,6 +190,16 @@ def build_template(scn, root):
             os.makedirs(os.path.join(jd, d), exist_ok=True)
         if j.get("resave"):
             job.init(force=True)
+    if scn.get("cache"):
+        # a persistent state point cache written while every job was healthy: check() after the
+        # crash / fault must judge the files, not the cache
+        for proj in projs:
+            proj.update_cache()
+    for j in scn["jobs"]:
+        jd = os.path.join(projs[j["proj"]].workspace, ref_id(j["sp"]))
+        if j["damage"] == "emptydir":
+            os.makedirs(jd)
+            continue
         spf = os.path.join(jd, SP)
         dmg = j["damage"] or ""
         if "nosp" in dmg:
@@ -646,6 +655,7 @@ def run_case(case, ctx):
     finally:
         ctx.cleanup(runner.base)
     tags.append("op=%s/%s" % (case["op"], case["variant"]))
+    tags.append("cache=%s" % bool(case.get("cache")))
     key = None
     if nsteps is None or nsteps > 0:
         key = [case["op"], case["variant"], case["sp"], case["newsp"],
